@@ -144,6 +144,8 @@ impl BuildStates {
         // This function is called on all state transitions.
         // We get 'prev', the previous state, and 'state', the new state.
         let prev = std::mem::replace(&mut self.states[id], state);
+        #[cfg(n2_verif)]
+        crate::verif::trace(|| format!("set {} {:?} {:?}", crate::densemap::Index::index(&id), prev, state));
 
         // We skip user-facing counters for phony builds.
         let skip_ui_count = build.cmdline.is_none();
@@ -508,6 +510,8 @@ impl<'a> Work<'a> {
         }
 
         let hash = hash::hash_build(&self.graph.files, &mut self.file_state, build);
+        #[cfg(n2_verif)]
+        crate::verif::trace(|| format!("record {} {}", crate::densemap::Index::index(&id), hash.0));
         self.db.write_build(&self.graph, id, hash)?;
 
         Ok(())
@@ -622,6 +626,20 @@ impl<'a> Work<'a> {
     /// Check a ready build for whether it needs to run, returning true if so.
     /// Prereq: any dependent input is already generated.
     fn check_build_dirty(&mut self, id: BuildId) -> anyhow::Result<bool> {
+        #[cfg(n2_verif)]
+        {
+            let r = self.check_build_dirty_inner(id);
+            crate::verif::trace(|| match &r {
+                Ok(d) => format!("dirty {} {}", crate::densemap::Index::index(&id), d),
+                Err(e) => format!("dirty {} error {}", crate::densemap::Index::index(&id), e),
+            });
+            return r;
+        }
+        #[cfg(not(n2_verif))]
+        self.check_build_dirty_inner(id)
+    }
+
+    fn check_build_dirty_inner(&mut self, id: BuildId) -> anyhow::Result<bool> {
         let build = &self.graph.builds[id];
         let phony = build.cmdline.is_none();
         let file_missing = if phony {
@@ -732,6 +750,8 @@ impl<'a> Work<'a> {
             }
 
             while let Some(id) = self.build_states.pop_ready() {
+                #[cfg(n2_verif)]
+                crate::verif::trace(|| format!("pop_ready {}", crate::densemap::Index::index(&id)));
                 if !self.check_build_dirty(id)? {
                     // Not dirty; go directly to the Done state.
                     self.ready_dependents(id);
@@ -756,6 +776,8 @@ impl<'a> Work<'a> {
                 continue;
             }
 
+            #[cfg(n2_verif)]
+            crate::verif::trace(|| format!("quiesce {}", runner.running));
             if !runner.is_running() {
                 if tasks_failed > 0 {
                     // No more progress can be made, hopefully due to tasks that failed.
